@@ -770,6 +770,16 @@ class Tr:
                 self.fail(s, "append of a %s to a %s" % (tv, env.types[lst]))
             self.escape(c.args[0], env)
             return self.line(ind, "let %s := append %s %s in" % (lst, lst, _paren(v)), s)
+        # l.extend(m) on a fresh local list, m a list of the same type (its items are copied: no aliasing)
+        if isinstance(c, ast.Call) and isinstance(c.func, ast.Attribute) and c.func.attr == "extend" \
+                and len(c.args) == 1 and not c.keywords:
+            lst = self.list_var(c.func.value, env)
+            if lst is None or lst not in env.fresh:
+                self.fail(s, "extend is supported on a fresh local list only")
+            v, tv = self.expr(c.args[0], env)
+            if tv != env.types[lst]:
+                self.fail(s, "extend of a %s by a %s" % (env.types[lst], tv))
+            return self.line(ind, "let %s := %s ++ %s in" % (lst, lst, _paren(v)), s)
         self.fail(s, "unsupported expression statement")
 
     # ----- conditionals
